@@ -45,6 +45,15 @@ MODE_OF = {
 }
 
 
+def _traced_files():
+    import py_gql.execution.executor as _ex
+    import py_gql.execution.wrappers as _wr
+    return (_tp.__file__, _ex.__file__, _wr.__file__, __file__)
+
+
+TRACED_FILES = _traced_files()
+
+
 class Boom(Exception):
     """Unexpected resolver exception (fault F3)."""
 
@@ -318,7 +327,7 @@ def make_middleware(tag, is_async=False):
 # --------------------------------------------------------------------------
 class Outcome:
     __slots__ = ("config", "status", "result", "exc", "kernel", "loop_info",
-                 "ctx", "blocking_waits")
+                 "ctx", "blocking_waits", "l2")
 
     def __init__(self, config):
         self.config = config
@@ -329,6 +338,7 @@ class Outcome:
         self.loop_info = None
         self.ctx = None
         self.blocking_waits = 0
+        self.l2 = None
 
 
 def run_config(config, bundle, request, world, stream, policy=None,
@@ -394,10 +404,12 @@ def run_config(config, bundle, request, world, stream, policy=None,
         elif config == "pool":
             rt = ThreadPoolRuntime(max_workers=1)
             rt._inner.shutdown(wait=False)
-            rt._inner = SimExecutor(kernel)
+            rt._inner = SimExecutor(
+                kernel, nworkers=(1, 2, 4)[stream.below(3, "pool-size")])
             saved = _tp.Future
             _tp.Future = SimFuture
             SimFuture.kernel = kernel
+            SimFuture.executor = rt._inner
             waits0 = SimFuture.blocking_waits
             try:
                 fut = process_graphql_query(
@@ -405,12 +417,42 @@ def run_config(config, bundle, request, world, stream, policy=None,
                 )
                 kernel.run_until(fut.done)
                 kernel.drain()
+                if kernel.deadlock:
+                    raise Hang("every pool worker was blocked in "
+                               "Future.result() inside a task (bounded-pool "
+                               "deadlock)")
                 out.result = fut.result(0)
                 out.status = "ok"
             finally:
                 out.blocking_waits = SimFuture.blocking_waits - waits0
                 _tp.Future = saved
                 SimFuture.kernel = None
+                SimFuture.executor = None
+        elif config == "threads":
+            from . import threads as _th
+            nworkers = 1 + stream.below(4, "n-workers")
+            if stream.below(3, "l2-policy") == 2:
+                pol = {"kind": "pct", "k": stream.below(4, "pct-k"),
+                       "horizon": 400 * (1 + stream.below(8, "pct-h"))}
+            else:
+                pol = {"kind": "rw",
+                       "mean": (2, 5, 20, 60)[stream.below(4, "rw-mean")]}
+            sim = _th.ThreadSim(kernel, TRACED_FILES, nworkers, pol,
+                                max_steps=400000)
+            out.l2 = sim
+            rt = ThreadPoolRuntime(max_workers=1)
+            rt._inner.shutdown(wait=False)
+            rt._inner = _th.ThreadSimExecutor(sim)
+            saved = _tp.Future
+            _tp.Future = _th.L2Future
+            try:
+                fut = sim.run(lambda: process_graphql_query(
+                    bundle.schema, text, runtime=rt, **kw))
+                out.result = fut.result(0) if hasattr(fut, "result") else fut
+                out.status = "ok"
+            finally:
+                _tp.Future = saved
+                out.blocking_waits = sim.stats["blocking_waits"]
         else:
             raise AssertionError(config)
     except Hang as err:
